@@ -1,6 +1,7 @@
 use crate::error::{Error, InnerError};
 use crate::json::json_escape;
 use crate::json::json_parse::read_tags_array;
+use crate::json::to_u16;
 use std::fmt;
 use std::ops::{Deref, DerefMut};
 
@@ -82,10 +83,10 @@ impl Tags {
         }
 
         // write length
-        output[0..2].copy_from_slice((length as u16).to_ne_bytes().as_slice());
+        output[0..2].copy_from_slice(to_u16(length)?.to_ne_bytes().as_slice());
 
         // write num_tags
-        output[2..4].copy_from_slice((parts.len() as u16).to_ne_bytes().as_slice());
+        output[2..4].copy_from_slice(to_u16(parts.len())?.to_ne_bytes().as_slice());
 
         // movable write pointer, start after the header
         // (the header offsets still need filling in)
@@ -94,10 +95,10 @@ impl Tags {
         for (n, tagref) in parts.iter().enumerate() {
             let tag = tagref.as_ref();
             // write header offset pos
-            output[4 + 2 * n..4 + 2 * n + 2].copy_from_slice((p as u16).to_ne_bytes().as_slice());
+            output[4 + 2 * n..4 + 2 * n + 2].copy_from_slice(to_u16(p)?.to_ne_bytes().as_slice());
 
             // write count
-            output[p..p + 2].copy_from_slice((tag.len() as u16).to_ne_bytes().as_slice());
+            output[p..p + 2].copy_from_slice(to_u16(tag.len())?.to_ne_bytes().as_slice());
             p += 2;
 
             for sref in tag.iter() {
@@ -106,7 +107,7 @@ impl Tags {
                 let slen = s.len();
 
                 // write string len
-                output[p..p + 2].copy_from_slice((slen as u16).to_ne_bytes().as_slice());
+                output[p..p + 2].copy_from_slice(to_u16(slen)?.to_ne_bytes().as_slice());
                 p += 2;
 
                 // write string
